@@ -1,6 +1,8 @@
-(* Findings/C13_F17_F18.v -- the two findings of property C13 as statements about
-   the model, with their concrete witnesses (Proof/ChanFaultWitness.v) and how each
-   was reproduced on the unchanged code (checks/C13.py does both on every run).
+(* Findings/C13_F17_F18.v -- the two findings of property C13 (both REPAIRED in /repo:
+   F17 by 8a2ea3a, F18 by da3bf3a) as statements about the model with the OLD knob values
+   (wc_close = true, init_guarded = false), with their concrete witnesses
+   (Proof/ChanFaultWitness.v) and how each was reproduced on the code before the repair.
+   checks/C13.py keeps both inputs as regression scenarios.
 
    F17  server.py, BaseWSGIServer.handle_accept: `self.channel_class(...)` is called
         after the try/except OSError.  HTTPChannel.__init__ calls
